@@ -63,19 +63,21 @@ package metric
 //@   modifies c.labelNames, c.desc, c.collection, allelems(string)
 //@   let n0 := old(len(c.labelNames))
 //@   ensures [group-and-value-kept] forall(k, uint64, has(c.collection, k) ==> exists(h, uint64, old(has(c.collection, h)) && old(c.collection[h]).Group == c.collection[k].Group && old(c.collection[h]).Value == c.collection[k].Value))
+//@   ensures [shape-kept] forall(k, uint64, has(c.collection, k) ==> len(c.collection[k].LabelValues) == len(c.labelNames))
 //@   loop 1
 //@     invariant 0 <= iter() && iter() <= len(c.labelNames) && previousLabelsMap != nil && fresh(previousLabelsMap)
 //@     invariant forall(x, string, has(previousLabelsMap, x) ==> 0 <= previousLabelsMap[x] && previousLabelsMap[x] < len(c.labelNames))
 //@   loop 2
-//@     invariant 0 <= iter() && iter() <= len(labels) && len(c.labelNames) >= n0
+//@     invariant 0 <= iter() && iter() <= len(labels) && len(c.labelNames) >= n0 && (!mustUpdate ==> len(c.labelNames) == n0)
 //@     invariant forall(x, string, has(previousLabelsMap, x) ==> 0 <= previousLabelsMap[x] && previousLabelsMap[x] < n0)
 //@     invariant c.collection == old(c.collection) && entries(c.collection) == old(entries(c.collection))
 //@   loop 3
 //@     invariant 0 <= nvisited() && newCollection != nil && fresh(newCollection) && newCollection != c.collection && c.collection == old(c.collection) && entries(c.collection) == old(entries(c.collection))
 //@     invariant forall(x, string, has(previousLabelsMap, x) ==> 0 <= previousLabelsMap[x] && previousLabelsMap[x] < n0)
 //@     invariant forall(k, uint64, has(newCollection, k) ==> exists(h, uint64, has(c.collection, h) && c.collection[h].Group == newCollection[k].Group && c.collection[h].Value == newCollection[k].Value))
+//@     invariant forall(k, uint64, has(newCollection, k) ==> len(newCollection[k].LabelValues) == len(c.labelNames))
 //@   loop 4
-//@     invariant 0 <= iter() && iter() <= len(c.labelNames) && fresh(newLabelsValues)
+//@     invariant 0 <= iter() && iter() <= len(c.labelNames) && fresh(newLabelsValues) && len(newLabelsValues) == iter()
 //@     invariant newCollection != nil && fresh(newCollection) && newCollection != c.collection && entries(newCollection) == atloop(entries(newCollection)) && entries(c.collection) == old(entries(c.collection))
 
 //@ func (*ConstCounterCollector).UpdateLabels
@@ -84,17 +86,19 @@ package metric
 //@   modifies c.labelNames, c.desc, c.collection, allelems(string)
 //@   let n0 := old(len(c.labelNames))
 //@   ensures [group-and-value-kept] forall(k, uint64, has(c.collection, k) ==> exists(h, uint64, old(has(c.collection, h)) && old(c.collection[h]).Group == c.collection[k].Group && old(c.collection[h]).Value == c.collection[k].Value))
+//@   ensures [shape-kept] forall(k, uint64, has(c.collection, k) ==> len(c.collection[k].LabelValues) == len(c.labelNames))
 //@   loop 1
 //@     invariant 0 <= iter() && iter() <= len(c.labelNames) && previousLabelsMap != nil && fresh(previousLabelsMap)
 //@     invariant forall(x, string, has(previousLabelsMap, x) ==> 0 <= previousLabelsMap[x] && previousLabelsMap[x] < len(c.labelNames))
 //@   loop 2
-//@     invariant 0 <= iter() && iter() <= len(labels) && len(c.labelNames) >= n0
+//@     invariant 0 <= iter() && iter() <= len(labels) && len(c.labelNames) >= n0 && (!mustUpdate ==> len(c.labelNames) == n0)
 //@     invariant forall(x, string, has(previousLabelsMap, x) ==> 0 <= previousLabelsMap[x] && previousLabelsMap[x] < n0)
 //@     invariant c.collection == old(c.collection) && entries(c.collection) == old(entries(c.collection))
 //@   loop 3
 //@     invariant 0 <= nvisited() && newCollection != nil && fresh(newCollection) && newCollection != c.collection && c.collection == old(c.collection) && entries(c.collection) == old(entries(c.collection))
 //@     invariant forall(x, string, has(previousLabelsMap, x) ==> 0 <= previousLabelsMap[x] && previousLabelsMap[x] < n0)
 //@     invariant forall(k, uint64, has(newCollection, k) ==> exists(h, uint64, has(c.collection, h) && c.collection[h].Group == newCollection[k].Group && c.collection[h].Value == newCollection[k].Value))
+//@     invariant forall(k, uint64, has(newCollection, k) ==> len(newCollection[k].LabelValues) == len(c.labelNames))
 //@   loop 4
-//@     invariant 0 <= iter() && iter() <= len(c.labelNames) && fresh(newLabelsValues)
+//@     invariant 0 <= iter() && iter() <= len(c.labelNames) && fresh(newLabelsValues) && len(newLabelsValues) == iter()
 //@     invariant newCollection != nil && fresh(newCollection) && newCollection != c.collection && entries(newCollection) == atloop(entries(newCollection)) && entries(c.collection) == old(entries(c.collection))
